@@ -181,8 +181,12 @@ func exec(op string) string {
 	case "new":
 		// new lh=<0|1> fib=<alg>
 		lh := strings.HasSuffix(f[1], "=1")
+		// "+rv": the management thread starts with the NLSR readvertiser (tables.rib.readvertise_nlsr,
+		// the daemon's default); it only reports routes of origin client, the tables stay as commanded
 		alg := strings.TrimPrefix(f[2], "fib=")
-		if r := w.setup(lh, alg); r != "ok" {
+		rv := strings.HasSuffix(alg, "+rv")
+		alg = strings.TrimSuffix(alg, "+rv")
+		if r := w.setup(lh, alg, rv); r != "ok" {
 			return r
 		}
 		return "ok " + w.dump()
